@@ -263,9 +263,13 @@ func filterScenario(i *Iface, fc filterCfg) *vm.Scenario {
 }
 
 // (e) concurrency: callers share one proxy and call with distinct values.
-func concurrentScenario(i *Iface, f *Func, callers int, pool int32) *vm.Scenario {
+func concurrentScenario(i *Iface, f *Func, callers int, pool int32, ownProxies ...bool) *vm.Scenario {
 	var bad []string
+	own := len(ownProxies) > 0 && ownProxies[0] // every caller has its own proxy object for the same remote object
 	sc := &vm.Scenario{Name: fmt.Sprintf("concurrent %d callers pool=%d %s", callers, pool, f.Full), MaxSteps: 2000000}
+	if own {
+		sc.Name = fmt.Sprintf("concurrent %d callers with a proxy object each pool=%d %s", callers, pool, f.Full)
+	}
 	sc.Reset = func() { bad = nil }
 	sc.Main = func() {
 		sys := setup(i, filterCfg{}, pool)
@@ -293,11 +297,18 @@ func concurrentScenario(i *Iface, f *Func, callers int, pool int32) *vm.Scenario
 			sys.sv.scripts[cs.id] = cs.sc
 			specs[k] = cs
 		}
+		prxs := make([]any, callers)
+		for k := range prxs {
+			prxs[k] = sys.prx
+			if own && k > 0 {
+				prxs[k] = sys.anotherProxy()
+			}
+		}
 		for k := 0; k < callers; k++ {
 			k := k
 			vm.GoNamed("caller", func() {
 				opts := []map[string]string{copyMap(specs[k].opts[0])}
-				results[k] = invoke(sys.prx, f, context.Background(), specs[k].ins, false, opts)
+				results[k] = invoke(prxs[k], f, context.Background(), specs[k].ins, false, opts)
 				vm.Send(done, struct{}{})
 			})
 		}
@@ -316,6 +327,63 @@ func concurrentScenario(i *Iface, f *Func, callers int, pool int32) *vm.Scenario
 			l := strings.SplitN(b, "\n", 2)
 			l[0] += ":concurrent-callers"
 			bad[k] = strings.Join(l, "\n")
+		}
+		return e1.Multi(bad, r.ObsString())
+	}
+	return sc
+}
+
+// short caller timeouts at several phases of the wall-clock second, configured on the proxy or given as
+// a context deadline: a call that the server answers at once is as transparent as with the default timeout.
+func phasesScenario(i *Iface, f *Func, pool int32) *vm.Scenario {
+	var bad []string
+	sc := &vm.Scenario{Name: fmt.Sprintf("short timeouts at phases of the second pool=%d %s", pool, f.Full), MaxSteps: 2000000}
+	sc.Reset = func() { bad = nil }
+	sc.Main = func() {
+		sys := setup(i, filterCfg{}, pool)
+		n := 0
+		for _, viaCtx := range []bool{false, true} {
+			for _, ms := range []int{300, 900} {
+				for _, phase := range []int{50, 450, 700, 950} {
+					// next instant with this phase
+					now := vm.Now()
+					at := now - now%int64(time.Second) + int64(phase)*int64(time.Millisecond)
+					if at <= now {
+						at += int64(time.Second)
+					}
+					vm.Sleep(at - now)
+					for _, oneway := range []bool{false, true} {
+						n++
+						cs := newSpec(f, fmt.Sprintf("t%d", n))
+						cs.oneway = oneway
+						sys.sv.scripts[cs.id] = cs.sc
+						delete(sys.sv.got, cs.id)
+						cs.reqCtx = copyMap(cs.opts[0])
+						ctx := context.Background()
+						if viaCtx {
+							var cancel context.CancelFunc
+							ctx, cancel = context.WithTimeout(ctx, time.Duration(ms)*time.Millisecond)
+							defer cancel()
+						} else {
+							sys.prx.(interface{ TarsSetTimeout(int) }).TarsSetTimeout(ms)
+						}
+						res := invoke(sys.prx, f, ctx, cs.ins, oneway, []map[string]string{copyMap(cs.opts[0])})
+						if oneway {
+							vm.Sleep(int64(20 * time.Millisecond))
+						}
+						for _, b := range judgeCall(cs, res, sys.sv.got[cs.id]) {
+							l := strings.SplitN(b, "\n", 2)
+							l[0] += ":short-timeout"
+							bad = append(bad, strings.Join(l, "\n")+fmt.Sprintf("\ntimeout %d ms (context=%v) issued %d ms into the second", ms, viaCtx, phase))
+						}
+					}
+				}
+			}
+		}
+	}
+	sc.Check = func(r *vm.Result) string {
+		if m := statusCheck(r); m != "" {
+			return m
 		}
 		return e1.Multi(bad, r.ObsString())
 	}
@@ -391,7 +459,11 @@ func Main(corpusJSON string) {
 			}
 			cases = append(cases, e1.Case{Sc: named(concurrentScenario(f.If, f, 2, 0), pol, deep+10), Opt: vm.Options{Bound: deep, StrictDev: true, Policy: pol, Prune: true}, Budget: budget, MinOutcomes: 1})
 			cases = append(cases, e1.Case{Sc: named(concurrentScenario(f.If, f, 3, 1), pol, b3), Opt: vm.Options{Bound: b3, StrictDev: true, Policy: pol}, Budget: budget, MinOutcomes: 1})
+			cases = append(cases, e1.Case{Sc: named(concurrentScenario(f.If, f, 2, 0, true), pol, b2), Opt: vm.Options{Bound: b2, StrictDev: true, Policy: pol}, Budget: budget, MinOutcomes: 1})
 		}
+	}
+	for _, pool := range []int32{0, 1} {
+		cases = append(cases, e1.Case{Sc: phasesScenario(conc[0].If, conc[0], pool), Opt: vm.Options{Bound: 0, StrictDev: true}, Budget: budget, MinOutcomes: 1})
 	}
 	if d := os.Getenv("C01_DEBUG"); d != "" {
 		for _, c := range cases {
